@@ -108,6 +108,16 @@ def funnel_dominance(chk, progs):
             for c in f.calls("canonicalize_name"):
                 if same_location(prog, f, c.ops[0], s.ops[0]) and success_edge_dominates(f, c, s.bb):
                     ok = True
+            if not ok:
+                # the same on feasible paths only: no path reaches the sink without an accepting edge, once paths on which
+                # an unwritten field would answer the same test differently are left out (corr.py)
+                from ..corr import reachable_avoiding, outcome_edges
+                acc = []
+                for c in f.calls("canonicalize_name"):
+                    if same_location(prog, f, c.ops[0], s.ops[0]):
+                        acc += outcome_edges(f, c, nonzero=False)
+                if acc and reachable_avoiding(prog, f, s.bb, acc) is None:
+                    ok = True
             if ok:
                 chk.ok("K1-funnel", "tar:next->sqfs_dir_entry_create", s,
                        "archive member names become directory entries only after canonicalize_name accepted them")
